@@ -50,48 +50,59 @@ class _IdxPE(pe.PE):
 
 
 def r1(chk, prog, m):
+    from itertools import product
     rid = "C12.R1"
-    chk.rule(rid, "is_valid_index decision table over token shapes (length {0,1,>=2} x first character {NUL,'0','1'-'9',other}): "
-                  "rejects the empty token, a leading zero and a non-digit, accepts a single digit")
+    chk.rule(rid, "is_valid_index, evaluated on every token of up to 4 characters over '0', '5', 'a' (zero digit, other digit, "
+                  "non-digit): accepts exactly \"0\" and the digit strings that do not start with a zero; rejects the empty token, "
+                  "a leading zero and anything with a non-digit")
     f = m.functions.get("is_valid_index")
     chk.require(f is not None and not f.is_decl, "is_valid_index not found")
     chk.touched(f)
-    nondigit = [x for x in range(1, 256) if not 48 <= x <= 57]
-    sb = lambda xs: [x if x < 128 else x - 256 for x in xs]
-    classes = [
-        ("empty token", [0], [0], {0}),
-        ("'0'", [1], [48], {1}),
-        ("single digit 1-9", [1], list(range(49, 58)), {1}),
-        ("single non-digit", [1], nondigit, {0}),
-        ("leading zero, length >= 2", [2, 3, 20], [48], {0}),
-        ("digit 1-9 first, length >= 2", [2, 3, 20], list(range(49, 58)), {0, 1}),
-        ("non-digit first, length >= 2", [2, 3, 20], nondigit, {0}),
-    ]
-    for name, lens, p0, allowed in classes:
-        h = _IdxPE(prog)
-        st = pe.State()
-        st.roots["len"] = frozenset(lens)
-        st.roots["p0"] = frozenset(sb(p0))
-        leaves = h.run(f, [("ptr", "path", ()), ("ptr", "idx", ())], st)
-        got = set()
-        unknown = False
-        for l in leaves:
-            if l.kind != "ret" or l.value is None or not pe.is_const(l.value):
-                unknown = True
-            else:
-                got.add(l.value[1])
+
+    class _TokPE(_UnescPE):
+        def call_model(self, state, frame, i, args):
+            if i.callee in ("strtoull", "strtoul", "strtoll", "strtol", "atoi"):
+                return pe.C(0)
+            if i.callee == "__errno_location":
+                return ("ptr", "errno", ())
+            return self.libc_string_model(state, frame, i, args)
+    classes = [("empty token", lambda t: t == b""), ("'0'", lambda t: t == b"0"), ("single digit 1-9", lambda t: t == b"5"),
+               ("single non-digit", lambda t: t == b"a"), ("leading zero, length >= 2", lambda t: len(t) >= 2 and t[:1] == b"0"),
+               ("digit 1-9 first, length >= 2, all digits", lambda t: len(t) >= 2 and t[:1] == b"5" and b"a" not in t),
+               ("a non-digit somewhere, length >= 2", lambda t: len(t) >= 2 and t[:1] != b"0" and b"a" in t)]
+    results = {name: [0, None, 0] for name, _ in classes}
+    for ln in range(0, 5):
+        for tup in product(b"05a", repeat=ln):
+            tok = bytes(tup)
+            want = 1 if (tok == b"0" or (tok and tok[:1] != b"0" and b"a" not in tok)) else 0
+            h = _TokPE(prog, tok)
+            leaves = h.run(f, [("ptr", "token", ()), ("ptr", "idx", ())], pe.State())
+            got = set()
+            for lf in leaves:
+                got.add(lf.value[1] if (lf.kind == "ret" and lf.value is not None and pe.is_const(lf.value)) else None)
+            for name, pred in classes:
+                if pred(tok):
+                    r = results[name]
+                    r[0] += 1
+                    if None in got:
+                        r[2] += 1
+                    elif got != {want} and r[1] is None:
+                        r[1] = (tok, got, want)
+                    break
+    for name, _ in classes:
+        n, bad, unk = results[name]
         sig = "token class: " + name
         loc = f.entry.term.locstr()
-        if unknown:
-            chk.undecided(rid, f.name, sig, loc, "return value not constant on some path")
-        elif got <= allowed and (got & ({1} if 1 in allowed else {0})):
-            chk.proven(rid, f.name, sig, loc, "returns %s (allowed %s) on all %d paths" % (sorted(got), sorted(allowed), len(leaves)))
-        else:
+        if bad:
+            tok, got, want = bad
             chk.refuted(rid, f.name, sig, loc,
-                        "is_valid_index returns %s for the class '%s' but RFC 6901 array indices are '0' or a digit string without "
-                        "leading zero, so it must return %s" % (sorted(got), name, sorted(allowed)),
-                        {"paths": len(leaves)})
-    chk.floor(rid, len(classes), 7, "token shape classes")
+                        "is_valid_index returns %s for the token %r; RFC 6901 array indices are \"0\" or a digit string without a "
+                        "leading zero, so it must return %d" % (sorted(got), tok.decode(), want))
+        elif unk:
+            chk.undecided(rid, f.name, sig, loc, "the return value could not be evaluated for %d token(s)" % unk)
+        else:
+            chk.proven(rid, f.name, sig, loc, "%d tokens decided as required" % n)
+    chk.floor(rid, sum(r[0] for r in results.values()), 100, "tokens evaluated")
 
 
 def r2(chk, prog, m):
@@ -334,9 +345,22 @@ def r5(chk, prog, m):
                 if pa == idxp and pb and "json_object_array_length" in pb:
                     if (c.x["pred"], tr) in (("uge", False), ("ult", True)):
                         ranged = True
+                if pb == idxp and pa and "json_object_array_length" in pa:
+                    # the same test written from the other side: length <= idx is false / length > idx is true
+                    if (c.x["pred"], tr) in (("ule", False), ("ugt", True)):
+                        ranged = True
             sig = "json_object_array_get_idx(%s, %s)" % (P.path(i.ops[0]), idxp)
             if valid and ranged:
                 chk.proven(rid, f.name, sig, i.locstr(), "dominated by is_valid_index() != 0 and index < length")
+            elif valid:
+                # a length comparison the rule does not recognise is not evidence of a missing one, unless there is no comparison
+                # with the length at all on the way to the fetch
+                anylen = any(getattr(c, "op", None) == "icmp" and any(o.kind == "reg" and "json_object_array_length" in (P.path(o) or "") for o in c.ops)
+                             for c, tr in conds)
+                if anylen:
+                    chk.undecided(rid, f.name, sig, i.locstr(), "the index is compared with the array length in a form this rule does not classify")
+                else:
+                    chk.refuted(rid, f.name, sig, i.locstr(), "array fetch dominated by index validation but by no comparison of the index with the array length")
             else:
                 chk.refuted(rid, f.name, sig, i.locstr(), "array fetch not dominated by index validation (%s) and range check (%s)" % (valid, ranged))
     chk.floor(rid, n, 1, "array fetches in pointer resolution")
